@@ -4,7 +4,7 @@ from __future__ import annotations
 import ast
 
 from engine.defuse import value_sources
-from engine.flow import (dominating_guards, must_pass, path_avoiding, reachable_from_entry,
+from engine.flow import (dominating_guards, expand_aliases, must_pass, path_avoiding, reachable_from_entry,
                          same_name_value)
 from engine.order import ESCAPE, OrderAnalysis
 from engine.effects import ap_str
@@ -177,7 +177,7 @@ def check(ctx):
     for h in loops:
         names = {x.id for x in ast.walk(h.ast.iter) if isinstance(x, ast.Name)}
         attrs = {x.attr for x in ast.walk(h.ast.iter) if isinstance(x, ast.Attribute)}
-        if kw in names:
+        if kw in names and data_loop is None:
             data_loop = h
         elif "_fields" in attrs:
             fields_loop = h
@@ -191,11 +191,21 @@ def check(ctx):
     def is_setdefault_call(n):
         return any(c.name == "__setdefault__" for c in an.callees(init, n))
 
-    def cut_in_data(a, bb, lbl):
-        if a.kind == "test" and lbl is True and isinstance(a.ast, ast.Compare) and len(a.ast.ops) == 1 \
-                and isinstance(a.ast.ops[0], ast.In) and isinstance(a.ast.comparators[0], ast.Name) \
-                and a.ast.comparators[0].id == kw:
+    def is_kw(e, at):
+        if not isinstance(e, ast.Name):
             return False
+        if e.id == kw:
+            return True
+        srcs = value_sources(init, e, at)
+        return bool(srcs) and all(k == "param" and p_ == kw for k, p_ in srcs)
+
+    def cut_in_data(a, bb, lbl):
+        # the edge taken when the key WAS given as a keyword: `key in data` true / `key not in data` false
+        if a.kind == "test" and isinstance(a.ast, ast.Compare) and len(a.ast.ops) == 1 and is_kw(a.ast.comparators[0], a):
+            if isinstance(a.ast.ops[0], ast.In) and lbl is True:
+                return False
+            if isinstance(a.ast.ops[0], ast.NotIn) and lbl is False:
+                return False
         return True
 
     p = path_avoiding(an, init, b, lambda n: n is fields_loop, is_setdefault_call, edge_filter=cut_in_data, exceptions=False)
@@ -295,7 +305,12 @@ def check(ctx):
     rets = [n for n in an.cfg(ivd).nodes if n.kind == "return"]
     ok = bool(rets)
     for r in rets:
-        v = r.ast.value
+        v = expand_aliases(ivd, r.ast.value, r) if r.ast.value is not None else None
+        # X._default_value_keys.isdisjoint((key,)) / .isdisjoint([key]) / .isdisjoint({key})  ==  key not in X._default_value_keys
+        if isinstance(v, ast.Call) and isinstance(v.func, ast.Attribute) and v.func.attr == "isdisjoint" and isinstance(v.func.value, ast.Attribute) \
+                and v.func.value.attr == "_default_value_keys" and len(v.args) == 1 and isinstance(v.args[0], (ast.Tuple, ast.List, ast.Set)) \
+                and len(v.args[0].elts) == 1:
+            v = ast.Compare(left=v.args[0].elts[0], ops=[ast.NotIn()], comparators=[v.func.value])
         good = isinstance(v, ast.Compare) and len(v.ops) == 1 and isinstance(v.ops[0], ast.NotIn) \
             and isinstance(v.comparators[0], ast.Attribute) and v.comparators[0].attr == "_default_value_keys"
         neg = isinstance(v, ast.UnaryOp) and isinstance(v.op, ast.Not) and isinstance(v.operand, ast.Compare) \
